@@ -348,3 +348,16 @@ Proof.
     pose proof (word_candidate_length_spec (can_bow cs) off ltac:(lia)) as W. cbn zeta in W. rewrite Hlen in W.
     eexists. split; [reflexivity|]. exact W.
 Qed.
+
+(* ---------- the re-read constants are those of the property statement ---------- *)
+Lemma can_bow_eq_spec_generic : bow_chain = spec_chain -> forall cs, can_bow cs = can_bow_spec cs.
+Proof. intros H cs. unfold can_bow, can_bow_spec. rewrite H. reflexivity. Qed.
+
+Lemma build_lattice_eq_spec_generic :
+  OF.oov_gate_mask = spec_gate -> OF.fallback_provider = "last"%string ->
+  forall c ps dict, build_lattice c ps dict = build_lattice_spec c ps dict.
+Proof.
+  intros G F c ps dict. unfold build_lattice, build_lattice_spec. rewrite G.
+  replace (fallback_of ps) with (spec_fallback ps); [reflexivity|].
+  unfold fallback_of, spec_fallback. rewrite F. reflexivity.
+Qed.
